@@ -22,6 +22,10 @@ pub struct GraphCase {
     /// all nodes enable only the unencrypted transport
     #[serde(default)]
     pub plain: bool,
+    /// bit i: node i advertises seven addresses (same family as its socket address) that nobody can reach, e.g.
+    /// addresses of other interfaces; an announcement carries at most seven addresses per family and node
+    #[serde(default)]
+    pub advertise: u8,
 }
 
 fn pairs(n: usize) -> Vec<(usize, usize)> {
@@ -120,6 +124,9 @@ pub fn graph_case(ctx: &Ctx, c: &GraphCase) -> Vec<Viol> {
         if c.plain {
             cfg.crypto.algorithms = vec!["plain".to_string()];
         }
+        if c.advertise & (1 << i) != 0 {
+            cfg.advertise_addresses = (0..7).map(|k| format!("[fd00:99:{:x}::{:x}]:{}", i + 1, k + 1, 3210 + i)).collect();
+        }
         sim.add_node(&cfg, c.nat & (1 << i) != 0);
     }
     for (k, (i, j)) in pairs(n).iter().enumerate() {
@@ -190,7 +197,10 @@ pub fn graph_case(ctx: &Ctx, c: &GraphCase) -> Vec<Viol> {
     }
     let nedges = c.edges.iter().filter(|e| **e & 3 != 0).count();
     if n >= 3 && nedges < n * (n - 1) / 2 {
-        ctx.nontrivial(&(c.nodes, &c.edges, c.nat));
+        ctx.nontrivial(&(c.nodes, &c.edges, c.nat, c.advertise));
+        if c.advertise != 0 {
+            ctx.class(if c.nat != 0 { "graph:with-unreachable-advertised-addresses-and-nat" } else { "graph:with-unreachable-advertised-addresses" });
+        }
     }
     out
 }
@@ -499,18 +509,32 @@ pub fn run(ctx: &Ctx) {
         for code in 0..total {
             let edges: Vec<u8> = (0..np).map(|k| ((code >> (2 * k)) & 3) as u8).collect();
             if usable_connected(n, &edges, 0) {
-                cases.push(GraphCase { nodes: n as u8, edges: edges.clone(), nat: 0, plain: false });
+                cases.push(GraphCase { nodes: n as u8, edges: edges.clone(), nat: 0, plain: false, advertise: 0 });
                 if n == 3 || code % 5 == 0 {
-                    cases.push(GraphCase { nodes: n as u8, edges, nat: 0, plain: true });
+                    cases.push(GraphCase { nodes: n as u8, edges, nat: 0, plain: true, advertise: 0 });
                 }
             }
         }
     }
-    let total = cases.len() as u64;
+    // 3-node graphs again with nodes that advertise seven unreachable addresses, with and without a NATed node
+    let mut adv_cases = 0u64;
+    for code in 0..64u32 {
+        let edges: Vec<u8> = (0..3).map(|k| ((code >> (2 * k)) & 3) as u8).collect();
+        for advertise in [0b001u8, 0b010, 0b100, 0b111] {
+            for nat in [0u8, 0b001, 0b010, 0b100] {
+                if usable_connected(3, &edges, nat) {
+                    cases.push(GraphCase { nodes: 3, edges: edges.clone(), nat, plain: false, advertise });
+                    adv_cases += 1;
+                }
+            }
+        }
+    }
+    let total = cases.len() as u64 - adv_cases;
     ctx.par_items(&cases, |_, c| {
         let v = graph_case(ctx, c);
         ctx.report(v);
     });
+    ctx.subspace("all connected 3-node graphs x orientations x {one node, all nodes} advertising seven unreachable addresses x {no NAT, one NATed node}", adv_cases, true);
     ctx.subspace("all connected labelled graphs on 2..=4 nodes x every orientation per edge (no NAT), encrypted; all 3-node and every 5th 4-node case also with the unencrypted transport", total, true);
     ctx.sample("graph", || serde_json::to_value(&cases[cases.len() / 2]).unwrap());
     // sampled larger graphs and NAT masks
@@ -518,8 +542,8 @@ pub fn run(ctx: &Ctx) {
     ctx.proptest(
         "pt-graph",
         n,
-        || (2u8..=8, proptest::collection::vec(prop_oneof![3 => Just(0u8), 1 => Just(1u8), 1 => Just(2u8), 1 => Just(3u8)], 28), any::<u8>(), any::<bool>()),
-        |(nodes, edges, nat, use_nat)| {
+        || (2u8..=8, proptest::collection::vec(prop_oneof![3 => Just(0u8), 1 => Just(1u8), 1 => Just(2u8), 1 => Just(3u8)], 28), any::<u8>(), any::<bool>(), prop_oneof![2 => Just(0u8), 1 => any::<u8>()]),
+        |(nodes, edges, nat, use_nat, advertise)| {
             let n = *nodes as usize;
             let mut e = edges[..n * (n - 1) / 2].to_vec();
             // make it connected: a spanning path with random orientation from the leftover entries
@@ -529,7 +553,7 @@ pub fn run(ctx: &Ctx) {
                     e[k] = 1 + edges[27 - i] % 3;
                 }
             }
-            let c = GraphCase { nodes: *nodes, edges: e, nat: if *use_nat { *nat } else { 0 }, plain: edges[20] == 3 };
+            let c = GraphCase { nodes: *nodes, edges: e, nat: if *use_nat { *nat } else { 0 }, plain: edges[20] == 3, advertise: *advertise };
             graph_case(ctx, &c)
         },
     );
